@@ -18,7 +18,8 @@ their public attributes only.
     system      network, space, state in SI, chemostat map, declared unit system
     script      system, sample times / time step / t_max / sampling interval in SI, sampling policy,
                 initial-state processing mode, seed, declared unit system
-    trajectory  system, script (or None), data and sample times in SI, engine description / option, cgmap
+    trajectory  system, script (or None), data and sample times in SI and the shape of the two arrays (flat),
+                engine description / option, cgmap
 
 `describe(obj)` returns a nested description (dict / list / leaves); `diff(a, b)` the list of
 human-readable differences (empty = physically equal); `diff_entries(a, b)` the structured form used to
@@ -83,6 +84,15 @@ def q_array(q):
         v = _frac(x)
         out.append(Q(dim, v * sc if isinstance(v, F) else v))
     return out
+
+
+def shape_of(q):
+    """shape of the stored values of a UnitArray-like object (a 1-D array of n values -> [n])"""
+    v = q.value
+    sh = getattr(v, "shape", None)
+    if sh is not None:
+        return [int(x) for x in sh]
+    return [len(v)]
 
 
 def _flat(v):
@@ -236,6 +246,7 @@ def describe_system(s):
         "network": describe_network(s.network),
         "space": describe_space(s.space),
         "state": q_array(s.state),
+        "state_shape": shape_of(s.state),
         "chemostats": [int(x) for x in _flat(s.chemostats)],
         "units_system": sys3(s.units_system),
     }
@@ -246,6 +257,7 @@ def describe_script(sc):
         "__kind__": "rdscript",
         "system": describe_system(sc.system),
         "t_sample": q_array(sc.t_sample),
+        "t_sample_shape": shape_of(sc.t_sample),
         "time_step": q_scalar(sc.time_step),
         "t_max": q_scalar(sc.t_max),
         "sampling_policy": sc.sampling_policy,
@@ -262,7 +274,9 @@ def describe_trajectory(t):
         "system": describe_system(t.system),
         "script": None if t.script is None else describe_script(t.script),
         "data": q_array(t.data),
+        "data_shape": shape_of(t.data),          # flat: nsamples * nspecies * ncells values, len(data) = that number
         "t_sample": q_array(t.t),
+        "t_sample_shape": shape_of(t.t),
         "engine_description": t.engine_description,
         "engine_option": t.engine_option,
         "cgmap": None if t.cgmap is None else [int(x) for x in _flat(t.cgmap)],
@@ -459,6 +473,9 @@ def selftest():
     t4 = RDTrajectory(UnitArray([1, 2, 3, 4], "molecule"), UnitArray([0, 1], "s"), s1, script=sc1, cgmap=[0, 0])
     assert equal(t3, t4) and not equal(t1, t2) and not equal(t1, t3)
     assert [(e.kind, e.field) for e in diff_entries(t1, t3)] == [("rdtrajectory", "cgmap")]
+    # same numbers in another array shape are not the same trajectory (flat indexing, len() differ)
+    t6 = RDTrajectory(UnitArray(np.array([[1, 2], [3, 4]]), "molecule", check_value=False), UnitArray([0, 1], "s"), s1, script=sc1)
+    assert [(e.kind, e.field) for e in diff_entries(t1, t6)] == [("rdtrajectory", "data_shape")], diff(t1, t6)
     # a nested difference is attributed to the innermost object
     t5 = RDTrajectory(UnitArray([1, 2, 3, 4], "molecule"), UnitArray([0, 1], "s"), s1, script=sc3)
     assert [(e.kind, e.field) for e in diff_entries(t1, t5)] == [("rdscript", "init_state_processing")]
